@@ -111,17 +111,19 @@ class GroundedEffect:
             ):
                 continue
 
-            for state_predicate in next_state_predicates[
-                positive_predicate.lifted_untyped_representation
-            ]:
-                if (
-                    state_predicate.untyped_representation
-                    == positive_predicate.untyped_representation
-                ):
-                    next_state_predicates[
-                        positive_predicate.lifted_untyped_representation
-                    ].discard(state_predicate)
-                    break
+            # the same fact may be stored more than once (with different type annotations) - removing all.
+            matching_state_predicates = [
+                state_predicate
+                for state_predicate in next_state_predicates[
+                    positive_predicate.lifted_untyped_representation
+                ]
+                if state_predicate.untyped_representation
+                == positive_predicate.untyped_representation
+            ]
+            for state_predicate in matching_state_predicates:
+                next_state_predicates[
+                    positive_predicate.lifted_untyped_representation
+                ].discard(state_predicate)
 
         for predicate in add_effects:
             lifted_predicate_str = predicate.lifted_untyped_representation
